@@ -368,7 +368,7 @@ class NDOptPrefixInformation (NDOptionBase):
   def pack (self):
     s = struct.pack("!BBII", self.prefix_length, self.flags,
         self.valid_lifetime,self.preferred_lifetime)
-    s += '\x00' * 4
+    s += b'\x00' * 4
     s += self.prefix.raw
     return s
 
